@@ -92,18 +92,18 @@ def tlc_cached(ctx, module, cfg, timeout=3000, tag=None, workers=None, min_expor
     return r
 
 
-def replay_cached(ctx, binary, args, export_path, timeout=3000, verb="replay"):
+def replay_cached(ctx, binary, args, export_path, timeout=3000, verb="replay", env=None):
     """Runs `binary replay <export> <workers> args...` (VH protocol) with a result cache keyed by the
     binary and the export; returns the parsed result of ctx.harness with only this property's violations
     registered."""
     os.makedirs(CACHE, exist_ok=True)
-    key = _sha([binary, export_path], verb + " " + " ".join(args) + "|seed=%d" % ctx.seed)
+    key = _sha([binary, export_path], verb + " " + " ".join(args) + "|seed=%d" % ctx.seed + ("|env=%s" % sorted(env.items()) if env else ""))
     path = os.path.join(CACHE, "replay_%s_%s.vh" % (os.path.basename(binary), key))
     if os.path.exists(path) and os.environ.get("VERIF_NOCACHE") != "1":
         h = ctx.harness(["cat", path], timeout=600, keep=mine(ctx))
         h["cached"] = True
         return h
-    h = ctx.harness([binary, verb, export_path, str(NCPU)] + list(args), timeout=timeout, keep=mine(ctx))
+    h = ctx.harness([binary, verb, export_path, str(NCPU)] + list(args), timeout=timeout, keep=mine(ctx), env=env)
     if h["summary"].get("unreproducible_worker_deaths", 0):
         raise Infra("a worker died on a case that did not reproduce the death")
     tmp = path + ".tmp%d" % os.getpid()
@@ -139,10 +139,10 @@ CASPER_CFGS = {
     "quick": [("cfg/CasperGen.n1.quick.cfg", 1, 0, 1), ("cfg/CasperGen.n3me.quick.cfg", 3, 0, 1),
               ("cfg/CasperGen.n3ext.quick.cfg", 3, 99, 4), ("cfg/CasperGen.deep.cfg", 4, 0, 1, 12, 90), ("cfg/CasperGen.deepbyz.cfg", 4, 0, 1, 6, 90),
               ("cfg/CasperGen.restart.quick.cfg", 4, 99, 4)],
-    "thorough": [("cfg/CasperGen.n1.thorough.cfg", 1, 0, 1), ("cfg/CasperGen.n3me.thorough.cfg", 3, 0, 4),
-                 ("cfg/CasperGen.n3ext.quick.cfg", 3, 99, 1), ("cfg/CasperGen.n4byz.thorough.cfg", 4, 99, 16),
-                 ("cfg/CasperGen.deep.cfg", 4, 0, 1, 400, 90), ("cfg/CasperGen.deepbyz.cfg", 4, 0, 1, 200, 90),
-                 ("cfg/CasperGen.restart.quick.cfg", 4, 99, 1)],
+    "thorough": [("cfg/CasperGen.n1.thorough.cfg", 1, 0, 4), ("cfg/CasperGen.n3me.thorough.cfg", 3, 0, 12),
+                 ("cfg/CasperGen.n3ext.quick.cfg", 3, 99, 2), ("cfg/CasperGen.n4byz.thorough.cfg", 4, 99, 24),
+                 ("cfg/CasperGen.deep.cfg", 4, 0, 1, 150, 90), ("cfg/CasperGen.deepbyz.cfg", 4, 0, 1, 100, 90),
+                 ("cfg/CasperGen.restart.quick.cfg", 4, 99, 2)],
 }
 
 
@@ -189,9 +189,11 @@ def run_sets(ctx, timeout=3000):
 
 # ledger family: (cfg, stride quick) per tier
 LEDGER_CFGS = {
-    "quick": [("cfg/LedgerGen.quick.cfg", 8), ("cfg/LedgerGen.pool.quick.cfg", 4), ("cfg/LedgerGen.vote.quick.cfg", 24), ("cfg/LedgerGen.contract.quick.cfg", 96), ("cfg/LedgerGen.rules.quick.cfg", 2)],
-    "thorough": [("cfg/LedgerGen.quick.cfg", 1), ("cfg/LedgerGen.pool.quick.cfg", 1), ("cfg/LedgerGen.vote.quick.cfg", 1),
-                 ("cfg/LedgerGen.thorough.cfg", 32), ("cfg/LedgerGen.contract.quick.cfg", 4), ("cfg/LedgerGen.rules.quick.cfg", 1)],
+    "quick": [("cfg/LedgerGen.quick.cfg", 8), ("cfg/LedgerGen.pool.quick.cfg", 4), ("cfg/LedgerGen.vote.quick.cfg", 24), ("cfg/LedgerGen.votestep.quick.cfg", 24, {"VERIF_LOCKTABLE": "1,17,3"}),
+              ("cfg/LedgerGen.contract.quick.cfg", 96), ("cfg/LedgerGen.rules.quick.cfg", 2)],
+    "thorough": [("cfg/LedgerGen.quick.cfg", 2), ("cfg/LedgerGen.pool.quick.cfg", 1), ("cfg/LedgerGen.vote.quick.cfg", 4),
+                 ("cfg/LedgerGen.votestep.quick.cfg", 6, {"VERIF_LOCKTABLE": "1,17,3"}),
+                 ("cfg/LedgerGen.thorough.cfg", 64), ("cfg/LedgerGen.contract.quick.cfg", 16), ("cfg/LedgerGen.rules.quick.cfg", 1)],
 }
 
 
@@ -204,11 +206,13 @@ PROPOSE_CFGS = {
 def run_ledger(ctx, timeout=6000, mode="replay", only=None):
     b = ctx.build("ledger")
     out = dict(tlc=[], cases=0, calls=0, distinct=0, samples=[], other=0, states=0, transitions=0, configs=[])
-    for cfg, stride in (LEDGER_CFGS if mode == "replay" else PROPOSE_CFGS)[ctx.tier]:
+    for ent in (LEDGER_CFGS if mode == "replay" else PROPOSE_CFGS)[ctx.tier]:
+        cfg, stride = ent[:2]
+        env = ent[2] if len(ent) > 2 else None
         if only and not any(o in cfg for o in only):
             continue
         r = tlc_cached(ctx, "chain/LedgerGen", cfg, timeout=timeout, tag="ledger", workers=NCPU)
-        h = replay_cached(ctx, b, [str(stride)], r.path, timeout=timeout, verb=mode)
+        h = replay_cached(ctx, b, [str(stride)], r.path, timeout=timeout, verb=mode, env=env)
         s = h["summary"]
         want = (r.nexports + stride - 1) // stride
         if abs(s.get("cases", 0) - want) > 1 and not h["violations"]:
